@@ -311,6 +311,17 @@ def iterWrapperBody : Expr :=
              (.call (.name "next") [.call (.name "iter") [.list []] []] [])
              (.call (.name "next") [.attribute (.name "self") "it"] [])))]] [])
 
+def hookFn : String := "__ol_f"
+
+/-- `type.__new__` turns `__init_subclass__` / `__class_getitem__` into classmethods when they are plain
+    functions; the emitted code does the same after the fact:
+    `(lambda __ol_f: classmethod(__ol_f) if type(__ol_f) is type(lambda: 0) else __ol_f)(f)` -/
+def hookWrap (f : Expr) : Expr :=
+  .call (.lambda (Arguments.simple [hookFn])
+    (.ifExp (.compare (.call (.name "type") [.name hookFn] []) [.is_]
+        [.call (.name "type") [.lambda Arguments.empty (.const (.int 0))] []])
+      (.call (.name "classmethod") [.name hookFn] []) (.name hookFn))) [f] []
+
 def whileCounter : String := "__ol_cnt"
 def classKey : String := "__ol_k"
 def classValue : String := "__ol_v"
@@ -465,7 +476,7 @@ mutual
         let lam : Expr := .lambda args'
           (.subscript (listWrapper (pre ++ mid ++ [.name inner.retvName])) Expr.neg1)
         let lam ← applyDecorators cx.nsp decorators lam
-        let lam := if inner.isMethod && name == "__init_subclass__" then .call (.name "classmethod") [lam] [] else lam
+        let lam := if inner.isMethod && (name == "__init_subclass__" || name == "__class_getitem__") then hookWrap lam else lam
         pure ([← cx.nsp.getAssign name lam], st)
     | .classDef name bases keywords body decorators lineno, st => do
         let inner ← findChild cx.nsp name lineno .class_
